@@ -22,22 +22,47 @@
     }
 //# ob name=roundtrip_u64 fn=value::serialize::ValueSerializer+value::deserialize kind=complete stmt="every u64 serialises to the U64 repr with the same value and deserialises back to itself"
 //# ob name=roundtrip_i64 fn=value::serialize::ValueSerializer+value::deserialize kind=complete stmt="every i64 round-trips (I64 repr)"
-//# ob name=roundtrip_u32 role=disabled fn=value::serialize::ValueSerializer+value::deserialize kind=complete stmt="every u32 round-trips"
-//# ob name=roundtrip_i32 role=disabled fn=value::serialize::ValueSerializer+value::deserialize kind=complete stmt="every i32 round-trips"
-//# ob name=roundtrip_u8 role=disabled fn=value::serialize::ValueSerializer+value::deserialize kind=complete stmt="every u8 round-trips"
-//# ob name=roundtrip_i8 role=disabled fn=value::serialize::ValueSerializer+value::deserialize kind=complete stmt="every i8 round-trips"
-//# ob name=roundtrip_u16 role=disabled fn=value::serialize::ValueSerializer+value::deserialize kind=complete stmt="every u16 round-trips"
-//# ob name=roundtrip_i16 role=disabled fn=value::serialize::ValueSerializer+value::deserialize kind=complete stmt="every i16 round-trips"
+//# ob name=roundtrip_u32 stubs=fmt_format_unreachable fn=value::serialize::ValueSerializer+value::deserialize kind=complete stmt="every u32 round-trips"
+//# ob name=roundtrip_i32 stubs=fmt_format_unreachable fn=value::serialize::ValueSerializer+value::deserialize kind=complete stmt="every i32 round-trips"
+//# ob name=roundtrip_u8 stubs=fmt_format_unreachable fn=value::serialize::ValueSerializer+value::deserialize kind=complete stmt="every u8 round-trips"
+//# ob name=roundtrip_i8 stubs=fmt_format_unreachable fn=value::serialize::ValueSerializer+value::deserialize kind=complete stmt="every i8 round-trips"
+//# ob name=roundtrip_u16 stubs=fmt_format_unreachable fn=value::serialize::ValueSerializer+value::deserialize kind=complete stmt="every u16 round-trips"
+//# ob name=roundtrip_i16 stubs=fmt_format_unreachable fn=value::serialize::ValueSerializer+value::deserialize kind=complete stmt="every i16 round-trips"
     roundtrip_int!(roundtrip_u64, u64, U64);
     roundtrip_int!(roundtrip_i64, i64, I64);
-    // the narrower widths are disabled: their deserialisation has a conversion-failure path that constructs and drops
-    // an Error inside the code under test, which CBMC does not finish (600 s); they are covered by serde_box_native
-    roundtrip_int!(roundtrip_u32, u32, U64);
-    roundtrip_int!(roundtrip_i32, i32, I64);
-    roundtrip_int!(roundtrip_u8, u8, U64);
-    roundtrip_int!(roundtrip_i8, i8, I64);
-    roundtrip_int!(roundtrip_u16, u16, U64);
-    roundtrip_int!(roundtrip_i16, i16, I64);
+    // the narrower widths have a conversion-failure path (serde's visit_u64 -> invalid_value -> Error::custom ->
+    // format!) that CBMC does not finish when it is explored (600 s). Their contract says that path is unreachable, so
+    // std::fmt::format is replaced by a stub that asserts exactly that and cuts the path (roundtrip_int_nofail below).
+    /// contract stub for `std::fmt::format` (reached through `<Error as serde::de::Error>::custom`, which Kani cannot stub directly) in harnesses whose postcondition is "never fails":
+    /// constructing a deserialisation error is itself the violation, so the stub asserts unreachability and then
+    /// cuts the path (no Error value is ever built or dropped, no message is formatted)
+    fn format_unreachable(_args: std::fmt::Arguments<'_>) -> String {
+        assert!(false, "an error message was formatted for a value that must round-trip");
+        kani::assume(false);
+        unreachable!()
+    }
+    macro_rules! roundtrip_int_nofail {
+        ($name:ident, $t:ty, $repr:ident) => {
+            #[kani::proof]
+            #[kani::unwind(3)]
+            #[kani::stub(std::fmt::format, format_unreachable)]
+            fn $name() {
+                let x: $t = kani::any();
+                let v = Value::from(Serde(x));
+                match v.0 { ValueRepr::$repr(y) => { assert!(y as i128 == x as i128); } _ => { assert!(false); } }
+                let back = <$t as serde::Deserialize>::deserialize(v.clone());
+                match back { Ok(y) => { assert!(y == x); } Err(e) => { std::mem::forget(e); assert!(false); } }
+                kani::cover!(true, "reached");
+                std::mem::forget(v);
+            }
+        };
+    }
+    roundtrip_int_nofail!(roundtrip_u32, u32, U64);
+    roundtrip_int_nofail!(roundtrip_i32, i32, I64);
+    roundtrip_int_nofail!(roundtrip_u8, u8, U64);
+    roundtrip_int_nofail!(roundtrip_i8, i8, I64);
+    roundtrip_int_nofail!(roundtrip_u16, u16, U64);
+    roundtrip_int_nofail!(roundtrip_i16, i16, I64);
 
 //# ob name=roundtrip_bool fn=value::serialize::ValueSerializer+value::deserialize kind=complete stmt="booleans round-trip (Bool repr)"
     #[kani::proof]
@@ -68,7 +93,8 @@
 //# ob name=roundtrip_option_u64 role=disabled fn=value::serialize::ValueSerializer+value::deserialize kind=complete stmt="Option<u64>: None serialises to none and Some(x) to x, and both deserialise back (for every x)"
     #[kani::proof]
     #[kani::unwind(3)]
-    // disabled: > 15 GB and > 25 min (deserialize_option + visitor machinery)
+    #[kani::stub(std::fmt::format, format_unreachable)]
+    // without the stub: > 15 GB and > 25 min (deserialize_option + visitor machinery + error formatting)
     fn roundtrip_option_u64() {
         let x: Option<u64> = kani::any();
         let v = Value::from(Serde(x));
